@@ -74,6 +74,28 @@ func capturedErrVars(p *Prog, fn *Fn) map[types.Object]bool {
 			return true
 		})
 	}
+	// a copy of such a variable (the helper's `return err` spliced into `err := …`) is the same verdict
+	for changed := true; changed; {
+		changed = false
+		walkNoLit(fn.Body, func(n ast.Node) bool {
+			as, ok := n.(*ast.AssignStmt)
+			if !ok || len(as.Lhs) != len(as.Rhs) {
+				return true
+			}
+			for i, l := range as.Lhs {
+				lid, ok1 := ast.Unparen(l).(*ast.Ident)
+				rid, ok2 := ast.Unparen(as.Rhs[i]).(*ast.Ident)
+				if ok1 && ok2 {
+					lo, ro := p.ObjOf(fn, lid), p.ObjOf(fn, rid)
+					if lo != nil && ro != nil && out[ro] && !out[lo] && isErrorType(lo.Type()) {
+						out[lo] = true
+						changed = true
+					}
+				}
+			}
+			return true
+		})
+	}
 	return out
 }
 
@@ -343,10 +365,30 @@ func c063(c *Ctx, r *Report, join *Fn, errVars map[types.Object]bool) {
 	collOK := vx == ax
 	// both must be <coll>.Keys() on the same variable
 	collVar := func(e ast.Expr) types.Object {
+		// a temporary holding the key list (`keys := coll.Keys()`, assigned once) stands for that call
+		if id, ok := ast.Unparen(e).(*ast.Ident); ok {
+			o := p.CanonObj(join, id)
+			var def ast.Expr
+			ndef := 0
+			walkNoLit(join.Body, func(nd ast.Node) bool {
+				if as, ok := nd.(*ast.AssignStmt); ok && len(as.Lhs) == len(as.Rhs) {
+					for i, l := range as.Lhs {
+						if lid, ok := ast.Unparen(l).(*ast.Ident); ok && p.CanonObj(join, lid) == o {
+							ndef++
+							def = as.Rhs[i]
+						}
+					}
+				}
+				return true
+			})
+			if ndef == 1 {
+				e = def
+			}
+		}
 		if call, ok := ast.Unparen(e).(*ast.CallExpr); ok {
 			if se, ok := ast.Unparen(call.Fun).(*ast.SelectorExpr); ok && se.Sel.Name == "Keys" && len(call.Args) == 0 {
 				if id, ok := ast.Unparen(se.X).(*ast.Ident); ok {
-					return p.ObjOf(join, id)
+					return p.CanonObj(join, id)
 				}
 			}
 		}
@@ -359,7 +401,7 @@ func c063(c *Ctx, r *Report, join *Fn, errVars map[types.Object]bool) {
 		// no assignment to the collection between the validation loop and the end of the apply loop
 		walkNoLit(join.Body, func(nd ast.Node) bool {
 			for _, id := range assignedIdentsShallow(nd) {
-				if p.ObjOf(join, id) == cv && id.Pos() > valRange.Pos() && id.Pos() < applyRange.End() {
+				if p.CanonObj(join, id) == cv && id.Pos() > valRange.Pos() && id.Pos() < applyRange.End() {
 					collOK = false
 				}
 			}
@@ -375,15 +417,15 @@ func c063(c *Ctx, r *Report, join *Fn, errVars map[types.Object]bool) {
 		if !ok {
 			return false
 		}
-		o := p.ObjOf(fn, id)
+		o := p.CanonObj(fn, id)
 		found := false
 		ast.Inspect(fn.Body, func(nd ast.Node) bool {
 			if as, ok := nd.(*ast.AssignStmt); ok {
 				for i, l := range as.Lhs {
-					if lid, ok := l.(*ast.Ident); ok && p.ObjOf(fn, lid) == o && i < len(as.Rhs) || (ok && p.ObjOf(fn, lid) == o && len(as.Rhs) == 1) {
+					if lid, ok := l.(*ast.Ident); ok && p.CanonObj(fn, lid) == o && i < len(as.Rhs) || (ok && p.CanonObj(fn, lid) == o && len(as.Rhs) == 1) {
 						if call, ok := ast.Unparen(as.Rhs[0]).(*ast.CallExpr); ok {
 							if se, ok := ast.Unparen(call.Fun).(*ast.SelectorExpr); ok && (se.Sel.Name == "UnsafeGet" || se.Sel.Name == "Get") {
-								if cid, ok := ast.Unparen(se.X).(*ast.Ident); ok && p.ObjOf(fn, cid) == cv {
+								if cid, ok := ast.Unparen(se.X).(*ast.Ident); ok && p.CanonObj(fn, cid) == cv {
 									found = true
 								}
 							}
@@ -406,7 +448,7 @@ func c063(c *Ctx, r *Report, join *Fn, errVars map[types.Object]bool) {
 		}
 		ast.Inspect(lit.Body, func(nd ast.Node) bool {
 			for _, id := range assignedIdentsShallow(nd) {
-				if errVars[p.ObjOf(lit, id)] {
+				if errVars[p.CanonObj(lit, id)] {
 					recorders[lit] = true
 				}
 			}
@@ -419,9 +461,9 @@ func c063(c *Ctx, r *Report, join *Fn, errVars map[types.Object]bool) {
 		if as, ok := nd.(*ast.AssignStmt); ok && len(as.Rhs) == 1 {
 			if call, ok := ast.Unparen(as.Rhs[0]).(*ast.CallExpr); ok {
 				if se, ok := ast.Unparen(call.Fun).(*ast.SelectorExpr); ok && (se.Sel.Name == "UnsafeGet" || se.Sel.Name == "Get") {
-					if cid, ok := ast.Unparen(se.X).(*ast.Ident); ok && p.ObjOf(val, cid) == cv {
+					if cid, ok := ast.Unparen(se.X).(*ast.Ident); ok && p.CanonObj(val, cid) == cv {
 						if id, ok := as.Lhs[0].(*ast.Ident); ok && item == nil {
-							item = p.ObjOf(val, id)
+							item = p.CanonObj(val, id)
 						}
 					}
 				}
@@ -435,7 +477,7 @@ func c063(c *Ctx, r *Report, join *Fn, errVars map[types.Object]bool) {
 		walkNoLit(val.Body, func(nd ast.Node) bool {
 			if call, ok := nd.(*ast.CallExpr); ok {
 				if se, ok := ast.Unparen(call.Fun).(*ast.SelectorExpr); ok && (se.Sel.Name == "UnsafeGet" || se.Sel.Name == "Get") {
-					if cid, ok := ast.Unparen(se.X).(*ast.Ident); ok && p.ObjOf(val, cid) == cv {
+					if cid, ok := ast.Unparen(se.X).(*ast.Ident); ok && p.CanonObj(val, cid) == cv {
 						if _, isArg := p.parent[call].(*ast.CallExpr); isArg {
 							itemSource = call
 						}
@@ -455,7 +497,7 @@ func c063(c *Ctx, r *Report, join *Fn, errVars map[types.Object]bool) {
 		rec := false
 		walkNoLit(nd, func(x ast.Node) bool {
 			for _, id := range assignedIdentsShallow(x) {
-				if errVars[p.ObjOf(val, id)] {
+				if errVars[p.CanonObj(val, id)] {
 					rec = true
 				}
 			}
@@ -477,7 +519,7 @@ func c063(c *Ctx, r *Report, join *Fn, errVars map[types.Object]bool) {
 					if h := p.ByObj[cf]; h != nil {
 						for ai, a := range call.Args {
 							isItem := false
-							if id, ok := ast.Unparen(a).(*ast.Ident); ok && p.ObjOf(val, id) == item {
+							if id, ok := ast.Unparen(a).(*ast.Ident); ok && p.CanonObj(val, id) == item {
 								isItem = true
 							}
 							if !isItem {
@@ -489,7 +531,7 @@ func c063(c *Ctx, r *Report, join *Fn, errVars map[types.Object]bool) {
 								f["called|CanAppend"], f["called|Verify"] = true, true
 								if as, ok := p.parent[call].(*ast.AssignStmt); ok && len(as.Lhs) == 1 {
 									if id, ok := as.Lhs[0].(*ast.Ident); ok && id.Name != "_" {
-										checkVar[p.ObjOf(val, id)] = "both"
+										checkVar[p.CanonObj(val, id)] = "both"
 									}
 								}
 							}
@@ -501,13 +543,13 @@ func c063(c *Ctx, r *Report, join *Fn, errVars map[types.Object]bool) {
 					switch cf.Name() {
 					case "CanAppend":
 						if len(call.Args) > 0 {
-							if id, ok := ast.Unparen(call.Args[0]).(*ast.Ident); ok && p.ObjOf(val, id) == item {
+							if id, ok := ast.Unparen(call.Args[0]).(*ast.Ident); ok && p.CanonObj(val, id) == item {
 								onItem = true
 							}
 						}
 					case "Verify":
 						if se, ok := ast.Unparen(call.Fun).(*ast.SelectorExpr); ok {
-							if id, ok := ast.Unparen(se.X).(*ast.Ident); ok && p.ObjOf(val, id) == item {
+							if id, ok := ast.Unparen(se.X).(*ast.Ident); ok && p.CanonObj(val, id) == item {
 								onItem = true
 							}
 						}
@@ -517,7 +559,7 @@ func c063(c *Ctx, r *Report, join *Fn, errVars map[types.Object]bool) {
 						// result variable
 						if as, ok := p.parent[call].(*ast.AssignStmt); ok && len(as.Lhs) == 1 {
 							if id, ok := as.Lhs[0].(*ast.Ident); ok && id.Name != "_" {
-								checkVar[p.ObjOf(val, id)] = cf.Name()
+								checkVar[p.CanonObj(val, id)] = cf.Name()
 								f["tested-pending|"+cf.Name()] = true
 							}
 						}
@@ -542,7 +584,7 @@ func c063(c *Ctx, r *Report, join *Fn, errVars map[types.Object]bool) {
 		for _, a := range splitCond(cond, taken) {
 			if x, isNil, ok := nilTest(a); ok {
 				if id, ok := ast.Unparen(x).(*ast.Ident); ok {
-					if name := checkVar[p.ObjOf(val, id)]; name != "" {
+					if name := checkVar[p.CanonObj(val, id)]; name != "" {
 						names := []string{name}
 						if name == "both" {
 							names = []string{"CanAppend", "Verify"}
@@ -613,7 +655,7 @@ func c063(c *Ctx, r *Report, join *Fn, errVars map[types.Object]bool) {
 			walkNoLit(n, func(nd ast.Node) bool {
 				if as, isAs := nd.(*ast.AssignStmt); isAs {
 					for _, l := range as.Lhs {
-						if id, isId := ast.Unparen(l).(*ast.Ident); isId && errVars[p.ObjOf(rec, id)] {
+						if id, isId := ast.Unparen(l).(*ast.Ident); isId && errVars[p.CanonObj(rec, id)] {
 							if !before["nn|"+p.ID(par)] {
 								ok = false
 							}
@@ -629,15 +671,15 @@ func c063(c *Ctx, r *Report, join *Fn, errVars map[types.Object]bool) {
 		e = ast.Unparen(e)
 		switch x := e.(type) {
 		case *ast.Ident:
-			if o := p.ObjOf(val, x); o != nil && before["nn|"+p.ID(o)] {
+			if o := p.CanonObj(val, x); o != nil && before["nn|"+p.ID(o)] {
 				return true
 			}
 		case *ast.SelectorExpr:
 			// a package-level error value
-			if v, ok := p.ObjOf(val, x.Sel).(*types.Var); ok && !v.IsField() && v.Parent() == v.Pkg().Scope() {
+			if v, ok := p.CanonObj(val, x.Sel).(*types.Var); ok && !v.IsField() && v.Parent() == v.Pkg().Scope() {
 				return true
 			}
-			if _, ok := p.ObjOf(val, x.Sel).(*types.Const); ok {
+			if _, ok := p.CanonObj(val, x.Sel).(*types.Const); ok {
 				return true // a typed constant converted to error is never nil
 			}
 		case *ast.CallExpr:
@@ -660,7 +702,7 @@ func c063(c *Ctx, r *Report, join *Fn, errVars map[types.Object]bool) {
 				}
 			case *ast.AssignStmt:
 				for i, l := range x.Lhs {
-					if id, ok := ast.Unparen(l).(*ast.Ident); ok && errVars[p.ObjOf(val, id)] && i < len(x.Rhs) {
+					if id, ok := ast.Unparen(l).(*ast.Ident); ok && errVars[p.CanonObj(val, id)] && i < len(x.Rhs) {
 						nrec++
 						r.Check(knownNonNil(x.Rhs[i], before), "R-C06.8", r.Key("R-C06.8", val, "record", types.ExprString(x.Rhs[i])), x.Pos(),
 							"the recorded value is known non-nil", "the validator stores a possibly nil value into the aggregated error: a later success erases an earlier failure")
